@@ -101,7 +101,7 @@ theorem norm_rule_local (ts : List Tok) :
     outside clsEmpty (runRule ruleEmpty ts) = outside clsEmpty ts ∧
     outside clsPipe (runRule rulePipe ts) = outside clsPipe ts ∧
     outside clsComma (closureSep 0 0 noTok ts) = outside clsComma ts ∧
-    outside clsSemi (semiSep [] false false 1 0 noTok ts) = outside clsSemi ts ∧
+    outside clsSemi (semiSep [] {} false false 1 0 noTok ts) = outside clsSemi ts ∧
     outside clsBlock (runRule ruleBlock ts) = outside clsBlock ts ∧
     outside clsComma (runRule ruleComma ts) = outside clsComma ts ∧
     outside clsDelim (runRule ruleParen ts) = outside clsDelim ts ∧
@@ -113,7 +113,7 @@ theorem norm_rule_local (ts : List Tok) :
   ⟨runRule_outside _ _ ruleVec_local ts, runRule_outside _ _ ruleAbi_local ts,
    runRule_outside _ _ ruleVis_local ts, whereSep_local ts false 0 0 false,
    runRule_outside _ _ ruleEmpty_local ts, runRule_outside _ _ rulePipe_local ts,
-   closureSep_local ts 0 0 noTok, semiSep_local ts [] false false 1 0 noTok,
+   closureSep_local ts 0 0 noTok, semiSep_local ts [] {} false false 1 0 noTok,
    runRule_outside _ _ ruleBlock_local ts, runRule_outside _ _ ruleComma_local ts,
    runRule_outside _ _ ruleParen_local ts, runRule_outside _ _ ruleLitParen_local ts,
    runRule_outside _ _ ruleClosureParen_local ts, runRule_outside _ _ ruleTry_local ts,
